@@ -1,5 +1,6 @@
 import AC.Drv.Proto
 import AC.RunsX
+import AC.Gen.ProgramFns
 /-! driver handler for C11: `c11 <lengths chain> <impl: err|chain> <unchanged>` -/
 namespace AC.Drv
 open P
@@ -12,6 +13,11 @@ def handleC11 (f : List String) : Res :=
       let r : Res := {}
       let m := match runsChainX lc with | .ok c => showInts c | .error _ => "err"
       let r := cmp "runschain" m impl r
+      -- `RunsChain` as TRANSLATED from runs.go, on chains whose values keep the result small
+      let r := if lc.length ≤ 16 && lc.all (fun l => decide (l ≤ 4096)) then
+          cmp "translated-runschain" (match AC.Gen.Program.dictRunsChain lc with
+            | some (c, none) => showInts c | some (_, some _) => "err" | none => "panic") impl r
+        else r
       let valid := isChainB lc
       if !valid then { (specIf "invalid-input-refused" (impl == "err") r) with tag := "invalid-input" } else
       if lc.any (fun l => !isUint64 l) then { (specIf "too-large-refused" (impl == "err") r) with tag := "too-large" } else
